@@ -167,14 +167,15 @@ def loadable (spec : List (String × List (String × Bool))) (u : Used) : Bool :
     | none => false
 
 /-- **Domain clauses of the pinned tree** (each is a finding `attr:<gen>.<attr>`): reads a loaded type cannot answer.
-    All but the last two occur only for the error domain of a `throws` clause (`noExternErrorDomainThrown`); the effective
+    All but the last two are only listed for reads in the context of the error domain of a `throws` clause (`noExternErrorDomainThrown`); the effective
     header needs `base_type`/`derived_header` of a `+cpp`/`+objc`/`+cppcli` base record (`noExternBaseRecord`). -/
-def knownMissing : List (String × String) :=
-  [("", "error_codes"), ("java", "name"), ("jni", "name"), ("jni", "namespace"), ("objc", "domain_name"),
-   ("objcpp", "name"), ("objcpp", "namespace"), ("*", "base_type"), ("*", "derived_header")]   -- "*": for every generator `headers` is called with
+def knownMissing : List (String × String × String) :=
+  [("", "error_codes", "error"), ("java", "name", "error"), ("jni", "name", "error"), ("jni", "namespace", "error"),
+   ("objc", "domain_name", "error"), ("objcpp", "name", "error"), ("objcpp", "namespace", "error"),
+   ("*", "base_type", "any"), ("*", "derived_header", "any")]   -- "*": every generator `headers` is called with
 
 def usedOk (spec : List (String × List (String × Bool))) (u : Used) : Bool :=
-  loadable spec u || knownMissing.contains (u.gen, u.attr) || knownMissing.contains ("*", u.attr)
+  loadable spec u || knownMissing.contains (u.gen, u.attr, u.ctx) || knownMissing.contains ("*", u.attr, u.ctx)
 
 /-- every loadable attribute that dependants read is a computed field of the marshalling class of every declaration kind -/
 def exportedOk (spec : List (String × List (String × Bool))) (computed : List (String × String × List String)) (u : Used) : Bool :=
